@@ -27,10 +27,19 @@ try:
             if b.returncode != 0:
                 res = "patched-tree-does-not-build"
             else:
-                p = subprocess.run([os.path.join(V, "check"), pid], cwd=V, env=dict(os.environ, VERIF_REPO=wt), stdout=subprocess.PIPE, stderr=subprocess.STDOUT)
-                out = p.stdout.decode("utf-8", "replace")
-                m = re.search(r"VIOLATION property=\S+ replay=\S+( no-failing-input-found)?", out)
-                res = "MISSED (exit %d)" % p.returncode if not m else ("half-detected (no-failing-input-found)" if m.group(1) else "caught (failing input)")
+                # "checked_by": the properties whose checks are expected to see this change (default: its own);
+                # the best outcome over them is recorded
+                best, rank = None, {"caught (failing input)": 2, "half-detected (no-failing-input-found)": 1}
+                for cp in meta.get("checked_by", [pid]):
+                    p = subprocess.run([os.path.join(V, "check"), cp], cwd=V, env=dict(os.environ, VERIF_REPO=wt), stdout=subprocess.PIPE, stderr=subprocess.STDOUT)
+                    out = p.stdout.decode("utf-8", "replace")
+                    m = re.search(r"VIOLATION property=\S+ replay=\S+( no-failing-input-found)?", out)
+                    r1 = "MISSED (exit %d)" % p.returncode if not m else ("half-detected (no-failing-input-found)" if m.group(1) else "caught (failing input)")
+                    if cp != pid and m:
+                        r1 += " by " + cp
+                    if best is None or rank.get(r1.split(" by ")[0], 0) > rank.get(best.split(" by ")[0], 0):
+                        best = r1
+                res = best
         meta["recheck"] = {"repo_head": head, "result": res}
         json.dump(meta, open(os.path.join(d, "meta.json"), "w"), indent=1, ensure_ascii=False)
         print("%-55s %s" % (name, res), flush=True)
